@@ -166,6 +166,11 @@ func (srv *Srv) flush(req *SrvReq) {
 		return
 	}
 
+	if r.Tc.Type == Tflush {
+		/* a Tflush is not cancelled: it is answered in its own time, and this one right after it */
+		return
+	}
+
 	r.Lock()
 	status := r.status
 	if (status & (reqWork | reqSaved)) == 0 {
